@@ -45,6 +45,17 @@ func main() {
 			{"nE", keys.Ed(9).Id, false}, {"nR", keys.RSA(1).Id, false}, {"nS2", keys.Scrypt("Correct Horse", 1).Id, true},
 		}
 		var idLists [][]int
+		if c.Thorough() {
+			for i := range pool {
+				for j := range pool {
+					for k := range pool {
+						for m := range pool {
+							idLists = append(idLists, []int{i, j, k, m})
+						}
+					}
+				}
+			}
+		}
 		for i := range pool {
 			idLists = append(idLists, []int{i})
 			for j := range pool {
@@ -112,7 +123,7 @@ func main() {
 		}
 
 		c.Part("non-matching-identity-lists")
-		c.Bound("%d recipient lists (all of length <=2 (+3 thorough) over {X0,X1,E0,R0,U}, 2 mixed, scrypt alone) x armor x %d identity lists of length 1..3 over 6 non-matching identities of every type", len(lists), len(idLists))
+		c.Bound("%d recipient lists (all of length <=2 (+3 thorough) over {X0,X1,E0,R0,U}, 2 mixed, scrypt alone) x armor x %d identity lists of length 1..3 (all of length 4 on the thorough tier) over 6 non-matching identities of every type", len(lists), len(idLists))
 		for li, l := range lists {
 			if !c.MineKey(li) {
 				continue
